@@ -120,7 +120,8 @@ def shard_fn(shard, nshards, seed, tier, exe, ndocs, nenum):
                 err_at, eno = rng.randrange(0, 5), rng.choice([EIO, EINTR, EAGAIN])
             else:
                 err_at, eno = -1, 0
-            cmds.append("FDR %d %s %d %d x%s" % (depth, caps, err_at, eno, text.hex()))
+            # (a third of the reads start in the middle of a file: the descriptor is handed over positioned behind bytes that are no JSON)
+            cmds.append("FDR %d %s %d %d x%s" % (depth, caps, err_at, eno, text.hex()) + (" %d" % rng.choice([1, 7, 100, 4095, 4096, 4097, 9000]) if rng.random() < 0.33 else ""))
             plan.append(("r", caps, err_at, eno, depth))
         if rng.random() < 0.05:
             # writing "no object" must fail before anything is created; and a process without standard input (descriptor 0 free) must still be able to write and read files
@@ -128,7 +129,8 @@ def shard_fn(shard, nshards, seed, tier, exe, ndocs, nenum):
             plan.append(("nullobj",))
         if rng.random() < 0.1:
             # (also with a path long enough that path + message exceed any fixed message buffer: there must still be a message)
-            cmds.append("FDF x%s 0" % rng.choice([b"/nonexistent/dir/file.json", b"/nonexistent/" + b"d" * rng.choice([150, 190, 240, 400, 1000]) + b"/file.json"]).hex())
+            cmds.append("FDF x%s 0" % rng.choice([b"/nonexistent/dir/file.json", b"/nonexistent/" + b"d" * rng.choice([150, 190, 240, 400, 1000]) + b"/file.json",
+                                                      b"/dev/shm", b"/", b"/dev/shm/."]).hex())   # (a directory can be opened, reading it fails: the descriptor must be given back all the same)
             plan.append(("nofile",))
         add(cmds, plan)
     # ---- a FIFO whose writer is slower than the reader (json_object_from_file opens the path itself: the descriptor's mode is the library's choice) ----
@@ -256,7 +258,7 @@ def shard_fn(shard, nshards, seed, tier, exe, ndocs, nenum):
             elif st[0] == "nofile":
                 if int(f["obj"]) or not int(f["lasterr"]) or f["opens"] != f["closes"]:
                     key, what = "unopenable-file", "json_object_from_file(nonexistent) -> %s" % ln
-                sh.count("file.unopenable")
+                sh.count("file.unopenable" if b"nonexistent" in bytes.fromhex(cmd.split()[1][1:]) else "file.is_a_directory")
             elif st[0] == "file":
                 # (reading back may legitimately fail: top-level scalars need a terminator, deep spines exceed the default depth)
                 if int(f["rc"]) != 0 or f["opens"] != f["closes"] or f["opens"] != "2" or (int(f["obj"]) and not int(f["eq"]) and not (len(st) > 1 and st[1])):   # (a custom double format may round: no equality after reading back then)
